@@ -69,6 +69,9 @@ impl C12 {
                 return;
             }
         };
+        if let Ok(want) = &r {
+            self.judge_surroundings(ctx, s, want);
+        }
         for (name, got) in [("Value::from_str", &doc.0), ("document", &doc.1), ("toml::from_str::<Value>", &doc.2), ("toml_edit::de::from_str::<map of Datetime>", &doc.3)] {
             match (&r, got) {
                 (Ok(a), Ok(b)) => {
@@ -83,6 +86,52 @@ impl C12 {
             // and the two real parsers among themselves
             if standalone.is_ok() != got.is_ok() && r.is_ok() == got.is_ok() {
                 // already reported through R
+            }
+        }
+    }
+
+    /// a valid date-time is the same date-time wherever a value may stand: followed by a blank,
+    /// a comment, a comma, a closing bracket or brace, a line break inside an array
+    fn judge_surroundings(&mut self, ctx: &mut Ctx, s: &str, want: &RDatetime) {
+        let settings: [(&str, String); 9] = [
+            ("array, blank before `]`", format!("k = [ {s} ]\n")),
+            ("array, tight", format!("k = [{s}]\n")),
+            ("array, second element", format!("k = [{s} , {s}]\n")),
+            ("array, trailing comma", format!("k = [{s},]\n")),
+            ("array over lines", format!("k = [\n  {s} # c\n  ,\n  {s}\n]\n")),
+            ("inline table", format!("k = {{ a = {s} }}\n")),
+            ("inline table, tight", format!("k = {{a={s}}}\n")),
+            ("comment after a blank", format!("k = {s} # c\n")),
+            ("tab, CR LF, end of file", format!("k = {s}\t\r\nj = {s}")),
+        ];
+        for (what, text) in settings {
+            ctx.count("doc-side/surroundings");
+            let got = guarded(|| {
+                toml_edit::DocumentMut::from_str(&text).map_err(|e| e.to_string()).and_then(|d| {
+                    let it = d.get("k").ok_or_else(|| "no k".to_string())?;
+                    let last = d.get("j").and_then(|i| i.as_datetime()).map(dt_to_r);
+                    let mut all: Vec<RDatetime> = Vec::new();
+                    if let Some(a) = it.as_array() {
+                        for e in a.iter() {
+                            all.push(e.as_datetime().map(dt_to_r).ok_or_else(|| format!("element is {}", e.type_name()))?);
+                        }
+                    } else if let Some(t) = it.as_inline_table() {
+                        all.push(t.get("a").and_then(|v| v.as_datetime()).map(dt_to_r).ok_or_else(|| "no date-time at a".to_string())?);
+                    } else {
+                        all.push(it.as_datetime().map(dt_to_r).ok_or_else(|| format!("k is {}", it.type_name()))?);
+                    }
+                    all.extend(last);
+                    Ok(all)
+                })
+            });
+            match got {
+                Err((loc, msg)) => ctx.violation(&format!("panic:{}", crate::short_loc(&loc)), format!("parser panicked at {loc} on {text:?}: {msg}")),
+                Ok(Err(e)) => ctx.violation("document-refuses-valid", format!("{what}: {text:?} is refused ({}); {s:?} is the valid {}", e.lines().last().unwrap_or(""), show_dt(want))),
+                Ok(Ok(all)) => {
+                    if let Some(b) = all.iter().find(|b| *b != want) {
+                        ctx.violation("document-fields-differ", format!("{what}: {text:?} gives {b:?}, the grammar gives {want:?}"));
+                    }
+                }
             }
         }
     }
